@@ -182,6 +182,29 @@ def check_one(ctx, case) -> None:
         if not ld:
             r.unload()
     o = compare(ctx, case, eng, spec, vec, loaded)
+    second = case.get("second")
+    if second and o is not None:
+        # the same method object and rule objects are used again after public edits: parameters assigned on the method,
+        # rules unloaded through their antecedent / consequent (which, unlike Rule.unload, does not deactivate them)
+        act2 = dict(act, **second["params"])
+        spec2 = mk_spec(n, act2, inputs_of, case.get("enabled"), case.get("weights"))
+        a = eng.rule_blocks[0].activation
+        if "rules" in act2:
+            a.rules = int(act2["rules"])
+        if "threshold" in act2:
+            a.threshold = float(act2["threshold"])
+        if "comparator" in act2:
+            a.comparator = fl.Threshold.Comparator(act2["comparator"])
+        loaded2 = list(loaded)
+        for k in second["unload"]:
+            k %= n
+            r = eng.rule_blocks[0].rules[k]
+            (r.antecedent if second.get("part", 0) == 0 else r.consequent).unload()
+            loaded2[k] = False
+        o2 = compare(ctx, dict(case, stage="second"), eng, spec2, second["vec"][: len(vec)] + vec[len(second["vec"]):],
+                     loaded2)
+        ctx.cls("second_activation_on_same_objects")
+        _ = o2
     ctx.ev()
     ctx.cls("method:" + act["cls"])
     if any(math.isnan(float(x)) for x in vec):
@@ -264,7 +287,18 @@ def one_cases(draw):
     weights = None
     if draw(st.integers(0, 4)) == 0:
         weights = [draw(st.sampled_from([None, 0.5, 0.25, 0.0, 1.0, 0.75])) for _ in range(n)]
-    return {"n": n, "act": act, "vec": vec, "inputs_of": inputs_of, "enabled": enabled, "loaded": loaded,
+    second = None
+    if draw(st.integers(0, 2)) == 0:
+        params = {}
+        if "rules" in act:
+            params["rules"] = draw(st.integers(0, n + 1))
+        if "threshold" in act and draw(st.booleans()):
+            params["threshold"] = draw(st.sampled_from(TH))
+        if "comparator" in act:
+            params["comparator"] = draw(st.sampled_from(CMP))
+        second = {"params": params, "unload": draw(st.lists(st.integers(0, 7), max_size=2)),
+                  "part": draw(st.integers(0, 1)), "vec": [draw(degree()) for _ in range(ni)]}
+    return {"n": n, "act": act, "vec": vec, "inputs_of": inputs_of, "enabled": enabled, "loaded": loaded, "second": second,
             "weights": weights, "free": True, "via": draw(st.sampled_from(["constructor", "constructor", "configure", "attribute"]))}
 
 
